@@ -310,6 +310,10 @@ func parserOpts(opt string) []parser.ParserOption {
 	return opts
 }
 
+// the parser fields checked after every call (nesting counter back to its value in a new parser, no context left): the
+// fields that play these roles today are named in the header line (found by the translator, tools/gotables/roles.go)
+var reuseDepthField, reuseCtxField = "depth", "ctx"
+
 func isParseCall(op string) bool {
 	switch op {
 	case "parse", "parse_raw_empty", "parse_raw_nil", "parse_noeof", "parsepos", "parsectx", "recover", "recoverpos":
@@ -339,10 +343,10 @@ func runParserHistory(h reuseHist, inputs []string) reuseOut {
 	prev := snapshot(p)
 	depthIdx, ctxIdx := -1, -1
 	for i, n := range names {
-		if n == "depth" {
+		if n == reuseDepthField {
 			depthIdx = i
 		}
-		if n == "ctx" {
+		if n == reuseCtxField {
 			ctxIdx = i
 		}
 	}
@@ -738,12 +742,20 @@ func init() {
 			if len(inputs) == 0 && strings.HasPrefix(string(line), `{"inputs"`) {
 				var hd struct {
 					Inputs []string `json:"inputs"`
+					Depth  string   `json:"depth_field"` // current names of the struct fields playing the depth / ctx roles
+					Ctx    string   `json:"ctx_field"`
 				}
 				if err := json.Unmarshal(line, &hd); err != nil {
 					fmt.Fprintln(os.Stderr, "bad header:", err)
 					return 2
 				}
 				inputs = hd.Inputs
+				if hd.Depth != "" {
+					reuseDepthField = hd.Depth
+				}
+				if hd.Ctx != "" {
+					reuseCtxField = hd.Ctx
+				}
 				continue
 			}
 			var h reuseHist
